@@ -5,6 +5,7 @@ package scen
 import (
 	"fmt"
 	"sync"
+	"sync/atomic"
 	"time"
 
 	"github.com/datastax/go-cassandra-native-protocol/frame"
@@ -251,7 +252,7 @@ func reprepareRace(c *Ctx, idx int, hosts, conns, nReq int, yield time.Duration)
 func runC02(c *Ctx) {
 	r := c.R
 	r.Assume("tokens are unique per request; a reply identifies the request it answers by the echoed token (rows, error text), the prepared id (function of the statement text) or its kind")
-	r.Require("replies_identity_checked", "reprepares_observed", "late_heartbeat_cases")
+	r.Require("replies_identity_checked", "reprepares_observed", "late_heartbeat_cases", "same_prepare_requests")
 	i := 0
 	next := func() int { i++; return i }
 	type rp struct{ hosts, conns, clients, w, rounds, errEvery int }
@@ -297,12 +298,142 @@ func runC02(c *Ctx) {
 			lateHeartbeatReply(c, j)
 		}
 	}
+	for j := 0; j < c.Pick(4, 120); j++ {
+		k := next()
+		if c.Mine(k) {
+			samePrepare(c, j)
+		}
+	}
 	yields := []time.Duration{0, 200 * time.Microsecond, time.Millisecond}
 	for j := 0; j < c.Pick(6, 600); j++ {
 		k := next()
 		if c.Mine(k) {
 			reprepareRace(c, j, 2+j%2, 1+j%2, 50, yields[j%3])
 		}
+	}
+}
+
+// samePrepare: what every driver does when it starts - several clients PREPARE the same few statements, pipelined on
+// different streams and all at once (statements that were prepared through the proxy before). Every PREPARE must get exactly
+// one PREPARED reply, on its own stream, naming the id of the text sent on that stream; the tokenised queries in between
+// must get their own rows. In odd rounds the backend holds its replies and releases them in one go, in a PRNG order.
+func samePrepare(c *Ctx, idx int) {
+	r := c.R
+	label := "same-prepare"
+	rng := c.Rng(7000 + idx)
+	hosts, conns, nClients, w := 1+idx%3, 1+idx%2, 2+rng.Intn(7), 24+rng.Intn(72)
+	scenario := map[string]interface{}{"kind": "same-prepare", "idx": idx, "hosts": hosts, "conns": conns, "clients": nClients, "w": w}
+	c.Step("same-prepare idx=%d hosts=%d conns=%d clients=%d w=%d", idx, hosts, conns, nClients, w)
+	bed, err := px.NewBed(px.BedConfig{Hosts: hosts, NumConns: conns, Keyspaces: []string{"ks1"}, KeepBodies: true})
+	if err != nil {
+		r.Inconc("same-prepare: cannot start bed: " + err.Error())
+		return
+	}
+	defer bed.Close()
+	bed.OnHook(nil)
+	var hold int32
+	bed.Cluster.SetScript(func(a *fakecass.Arrival) fakecass.Outcome {
+		var o fakecass.Outcome
+		if a.OpCode == primitive.OpCodePrepare {
+			o = fakecass.Outcome{Name: "Prepared", Msg: fakecass.PreparedResultFor("", a.Query, a.Header.Version)}
+		} else {
+			o = fakecass.Rows()
+		}
+		o.Hold = atomic.LoadInt32(&hold) == 1
+		return o
+	})
+	var texts []string
+	for i := 0; i < 2+idx%4; i++ {
+		texts = append(texts, fmt.Sprintf("INSERT INTO ks1.t (k, v) VALUES ('T%016x', ?)", 0x5a5e000000000000+uint64(idx)<<16+uint64(i)))
+	}
+	var clients []*rawcql.Client
+	comps := map[int]string{}
+	for i := 0; i < nClients; i++ {
+		comp := []string{"", "lz4", "", "snappy"}[i%4]
+		cl, err := bed.ReadyClient(primitive.ProtocolVersion4, comp)
+		if err != nil {
+			r.Inconc("same-prepare: handshake: " + err.Error())
+			return
+		}
+		defer cl.Close()
+		clients = append(clients, cl)
+		comps[cl.ID] = comp
+	}
+	mark := bed.Log.Len()
+	for i, q := range texts { // prepared through the proxy once before, one at a time
+		if _, err := clients[0].Call(int16(20000+i), &message.Prepare{Query: q}, 10*time.Second); err != nil {
+			r.Inconc("same-prepare: first prepare: " + err.Error())
+			return
+		}
+	}
+	sent := 0
+	for round := 0; round < 6; round++ {
+		atomic.StoreInt32(&hold, int32(round%2))
+		before := make([]int64, nClients)
+		var wg sync.WaitGroup
+		for ci, cl := range clients {
+			before[ci] = cl.Received()
+			wg.Add(1)
+			go func(ci int, cl *rawcql.Client) {
+				defer wg.Done()
+				for s := 0; s < w; s++ {
+					var f *frame.Frame
+					if s%5 == 4 {
+						f = BuildRequest(primitive.ProtocolVersion4, int16(s), KQuery, true, NewTok(), primitive.ConsistencyLevelOne)
+					} else {
+						f = frame.NewFrame(primitive.ProtocolVersion4, int16(s), &message.Prepare{Query: texts[(s+ci+round)%len(texts)]})
+					}
+					if cl.SendF(f) != nil {
+						return
+					}
+				}
+			}(ci, cl)
+		}
+		wg.Wait()
+		total := nClients * w
+		sent += total
+		got := func() int {
+			n := 0
+			for ci, cl := range clients {
+				n += int(cl.Received() - before[ci])
+			}
+			return n
+		}
+		if round%2 == 1 {
+			// whatever the proxy forwards is held; what it answers itself arrives: wait until the two add up, then release
+			if !waitFor(func() bool { return bed.Cluster.HeldCount()+got() >= total }, 20*time.Second) {
+				atomic.StoreInt32(&hold, 0)
+				bed.Cluster.ReleaseHeld(nil)
+				break // the pairing oracle below reports what is missing
+			}
+			held := bed.Cluster.HeldCount()
+			r.ObsMax("max:same_prepare_in_flight_at_backend", held)
+			atomic.StoreInt32(&hold, 0)
+			bed.Cluster.ReleaseHeld(rng.Perm(held))
+		}
+		if !waitFor(func() bool { return got() >= total }, 20*time.Second) {
+			break
+		}
+	}
+	atomic.StoreInt32(&hold, 0)
+	bed.Cluster.ReleaseHeld(nil)
+	time.Sleep(20 * time.Millisecond)
+	evs := bed.Log.Snapshot()[mark:]
+	eo := exactlyOnce(evs, map[int]bool{})
+	if len(eo.Outstanding) > 0 || len(eo.Stray) > 0 {
+		w := ""
+		if len(eo.Stray) > 0 {
+			w = fmt.Sprintf("; first stray frame: client %d stream %d", eo.Stray[0].Cl, eo.Stray[0].St)
+		}
+		r.Violate(mon.Violation{Signature: "C02/same-prepare/unpaired-replies", Detail: fmt.Sprintf("%d requests unanswered, %d frames on streams with no request in flight, while %d clients prepared the same %d statements on many streams%s", len(eo.Outstanding), len(eo.Stray), nClients, len(texts), w), Scenario: scenario})
+	}
+	n := identityCheck(r, "C02", evs, comps, label, scenario)
+	r.Obs("replies_identity_checked", n)
+	r.Obs("same_prepare_requests", sent)
+	r.Eval(sent)
+	r.NonTrivial(fmt.Sprintf("same-prepare/h%d/c%d/cl%d/w%d/t%d/seed%d", hosts, conns, nClients, w, len(texts), c.Seed))
+	if idx%10 == 0 {
+		r.Sample(scenario)
 	}
 }
 
